@@ -52,6 +52,30 @@ type engine struct {
 	// C11 / C12 only: schedule perturbation at the protocol's verif points
 	pert  uint64
 	pertN atomic.Uint64
+
+	// C12 histories only: park the engine's goroutine at its next `trans` event
+	// (holdTrans) or at the named verif point (holdPoint) until release is closed;
+	// held is closed when it got there. No lock is held at either place.
+	holdTrans bool
+	holdPoint string
+	held      chan struct{}
+	release   chan struct{}
+	heldOnce  sync.Once
+}
+
+func (e *engine) park() {
+	if e.held == nil {
+		return
+	}
+	first := false
+	e.heldOnce.Do(func() { first = true; close(e.held) })
+	if !first {
+		return
+	}
+	select {
+	case <-e.release:
+	case <-time.After(2 * watchdog):
+	}
 }
 
 var engines sync.Map // *protocol.Protocol -> *engine
@@ -69,6 +93,9 @@ func sink(ev protocol.VerifEvent) {
 	case e.wake <- struct{}{}:
 	default:
 	}
+	if e.holdTrans && ev.Kind == "trans" {
+		e.park()
+	}
 }
 
 func newEngine(cfg protocol.ProtocolConfig) *engine {
@@ -81,7 +108,15 @@ func newEngine(cfg protocol.ProtocolConfig) *engine {
 // newEngineOn builds the engine on a given connection end (C12 connects two
 // engines muxer to muxer); handler nil = plain recorder. b stays nil.
 func newEngineOn(cfg protocol.ProtocolConfig, a *netsim.Conn, handler func(*engine, protocol.Message) error, pert uint64) *engine {
+	return newEngineOpt(cfg, a, handler, pert, nil)
+}
+
+// newEngineOpt: opt runs on the engine before anything is started.
+func newEngineOpt(cfg protocol.ProtocolConfig, a *netsim.Conn, handler func(*engine, protocol.Message) error, pert uint64, opt func(*engine)) *engine {
 	e := &engine{wake: make(chan struct{}, 1), outbound: map[protocol.Message]bool{}, pert: pert}
+	if opt != nil {
+		opt(e)
+	}
 	e.a = a
 	e.mux = muxer.New(e.a)
 	e.errCh = make(chan error, 10)
